@@ -130,6 +130,42 @@ def run(tier, only=None):
                           "a double is printed with %s significant digits on the default path: 17 are needed for the text to "
                           "read back as the same value (generated C and S-expression output carry a different constant)" % prec)
     rep.floor("default-path float conversions in DFloatSprint", n, 1)
+    # L2b: a shortcut that prints a fixed text for d == 0.0 must keep the sign of zero
+    nz = 0
+    for c in calls(fn["body"]):
+        if c.get("callee") not in ("sprintf", "snprintf", "strcpy"):
+            continue
+        consts = [string_value(a) for a in walk(c) if a["k"] == "StringLiteral"]
+        if not consts or any("%" in (x or "") for x in consts):
+            continue
+        # on the default path only
+        p, node, under_flag, zero_guard = par.get(c["id"]), c, None, None
+        while p is not None:
+            if p["k"] == "IfStmt":
+                cond = strip(p["c"][0])
+                inthen = p["c"][1] is not None and any(x["id"] == node["id"] for x in walk(p["c"][1]))
+                if cond is not None and cond.get("n") == "cmdFloatRepFlag":
+                    under_flag = inthen
+                elif cond is not None and cond["k"] == "BinaryOperator" and cond["op"] == "==" and inthen and (
+                        const_value(cond["c"][1]) == 0 or (strip(cond["c"][1]) or {}).get("k") == "FloatingLiteral"
+                        and float((strip(cond["c"][1]).get("v") or 1)) == 0.0):
+                    zero_guard = p
+            node, p = p, par.get(p["id"])
+        if under_flag or zero_guard is None:
+            continue
+        nz += 1
+        # sign distinguished: the call's text depends on a test of the sign (1.0/d, signbit, copysign) or two texts with and without '-'
+        texts = [x for x in consts if x]
+        signed = any(t.startswith("-") for t in texts) and any(not t.startswith("-") for t in texts)
+        tested = any(y["k"] == "CallExpr" and y.get("callee") in ("signbit", "copysign", "__builtin_signbit") for y in walk(zero_guard["c"][1])) or \
+            any(y["k"] == "BinaryOperator" and y["op"] == "/" for y in walk(zero_guard["c"][1]))
+        key = "DFloatSprint:zero-keeps-sign"
+        if signed and tested:
+            rep.ok("L2", key, sample={"texts": texts})
+        else:
+            rep.violation("L2", key, "util.c:%d (DFloatSprint)" % c["l"],
+                          "d == 0.0 is printed as the fixed text %s whatever its sign: a folded constant -0.0 becomes +0.0 in generated C, "
+                          ".fm and Lisp output (1/x changes from -inf to +inf)" % texts)
     # ---- L3 ----
     f_buf = common.extract("buffer.c", all_trees=True)
     f_lib = common.extract("lib.c", trees=["libPutHeader", "libGetHeader"])
